@@ -39,7 +39,11 @@ std::string protoArr(const A& a) {
     case 'R': ty = "REAL"; for (float v : a.fv) { uint32_t u; std::memcpy(&u, &v, 4); raw += be(u); } n = a.fv.size(); break;
     case 'D': ty = "DOUB"; esz = 8; for (double v : a.dv) { uint64_t u; std::memcpy(&u, &v, 8); raw += be((uint32_t)(u >> 32)) + be((uint32_t) u); } n = a.dv.size(); break;
     case 'L': ty = "LOGI"; for (bool v : a.bv) raw += v ? std::string("\xff\xff\xff\xff", 4) : std::string(4, '\0'); n = a.bv.size(); break;
-    case 'C': ty = "CHAR"; esz = 8; for (auto& s : a.sv) raw += s + std::string(8 - s.size(), ' '); n = a.sv.size(); break;
+    case 'C': {
+        size_t mx = 0; for (auto& s : a.sv) mx = std::max(mx, s.size());
+        if (mx > 8) { ty = "C0NN"; esz = (int) mx; } else { ty = "CHAR"; esz = 8; }
+        for (auto& s : a.sv) raw += s + std::string(esz - s.size(), ' ');
+        n = a.sv.size(); break; }
     }
     return std::string(ty) + "," + std::to_string(esz) + "," + vh::hex(padName(a.name)) + "," + std::to_string(n) + "," + vh::hex(raw);
 }
@@ -48,12 +52,13 @@ A randArr(vh::Rng& r) {
     static const std::vector<std::string> names = { "PRESSURE", "SWAT", "SGAS", "INTEHEAD", "LOGIHEAD", "DOUBHEAD", "ZWEL", "IWEL", "XCON", "RS", "STARTSOL", "ENDSOL" };
     A a; a.name = r.pick(names); a.kind = r.pick(std::vector<char>{ 'I', 'R', 'D', 'L', 'C' });
     size_t n = r.coin(1, 6) ? 0 : (r.coin(1, 10) ? 1000 + r.below(5) : r.below(12));
+    const bool longStrings = r.coin(1, 3);     // strings of more than 8 characters are written as C0nn
     for (size_t i = 0; i < n; ++i) switch (a.kind) {
     case 'I': a.iv.push_back((int) (uint32_t) r.next()); break;
     case 'R': a.fv.push_back((float) (r.unit() * 400.0)); break;
     case 'D': a.dv.push_back(r.unit() * 1e5 - 3e4); break;
     case 'L': a.bv.push_back(r.coin()); break;
-    case 'C': { std::string s = "W" + std::to_string(r.below(9999)); a.sv.push_back(s); } break;
+    case 'C': { std::string s = "W" + std::to_string(r.below(9999)); if (longStrings) s += "_LONGNAME" + std::to_string(r.below(999)); a.sv.push_back(s); } break;
     }
     return a;
 }
@@ -173,7 +178,9 @@ int main(int argc, char** argv) {
                 switch (a.kind) {
                 case 'I': o = "I," + vh::hex(padName(a.name)) + ","; if (a.iv.empty()) o += "-"; for (size_t i = 0; i < a.iv.size(); ++i) { if (i) o += ":"; o += std::to_string(a.iv[i]); } break;
                 case 'L': o = "L," + vh::hex(padName(a.name)) + ","; if (a.bv.empty()) o += "-"; for (bool b : a.bv) o += b ? 'T' : 'F'; break;
-                default:  o = "C," + vh::hex(padName(a.name)) + ","; if (a.sv.empty()) o += "-"; for (size_t i = 0; i < a.sv.size(); ++i) { if (i) o += ":"; o += vh::hex(a.sv[i]); } break;
+                default: {
+                    size_t mx = 0; for (auto& x : a.sv) mx = std::max(mx, x.size());
+                    o = (mx > 8 ? "S" + std::to_string(mx) : std::string("C")) + "," + vh::hex(padName(a.name)) + ","; if (a.sv.empty()) o += "-"; for (size_t i = 0; i < a.sv.size(); ++i) { if (i) o += ":"; o += vh::hex(a.sv[i]); } break; }
                 }
                 return o;
             };
